@@ -294,6 +294,11 @@ func genTplOffset(t *rapid.T, c *tplCase) {
 	}
 	c.Off = rapid.SampledFrom(cands).Draw(t, "off")
 	c.Width = rapid.SampledFrom([]int{0, 0, 1, 3, 12, 25}).Draw(t, "width")
+	if rapid.IntRange(0, 7).Draw(t, "widewidth") == 0 {
+		// a width the seven characters of which stand for a megabyte per step: "memory proportional to the
+		// input" (the library refuses widths above 255; what is asserted is the bound, not the refusal)
+		c.Width = rapid.SampledFrom([]int{255, 256, 300, 4096, 65535, 100000, 1000000}).Draw(t, "wide")
+	}
 	c.Base = rapid.SampledFrom([]string{"d", "d", "o", "x", "X"}).Draw(t, "base")
 	c.Owner = rapid.IntRange(0, 3).Draw(t, "owner") == 0
 
@@ -367,7 +372,7 @@ func refNumber(v *big.Int, width int, base string) string {
 }
 
 func checkTpl(c tplCase) error {
-	if c.Step <= 0 || c.Start < 0 || c.Stop < c.Start || c.Prefix < 0 || c.Prefix > 10 || (c.Kind == "offset" && (c.Width < 0 || c.Width > 255 || !strings.Contains("doxX", c.Base) || len(c.Base) != 1)) {
+	if c.Step <= 0 || c.Start < 0 || c.Stop < c.Start || c.Prefix < 0 || c.Prefix > 10 || (c.Kind == "offset" && (c.Width < 0 || c.Width > 1000000 || !strings.Contains("doxX", c.Base) || len(c.Base) != 1)) {
 		pbt.Note(nil, false, "invalid-case")
 		return nil
 	}
@@ -406,6 +411,9 @@ func checkTpl(c tplCase) error {
 		}
 	} else {
 		classes = append(classes, fmt.Sprintf("tpl:owner=%v", c.Owner), "tpl:base="+c.Base)
+		if c.Width > 255 {
+			classes = append(classes, "tpl:width>255")
+		}
 		if _, ok := addOK(c.Stop, c.Off); !ok {
 			classes = append(classes, "tpl:last-value-beyond-int64")
 		}
@@ -429,6 +437,10 @@ func checkTpl(c tplCase) error {
 		return pbt.Errf("one $GENERATE directive yielded at least %d records (limit %d; %d records returned, %d lines before and %d behind the directive's first line)\n%s", got, zm.MaxGenerateSteps, out.N, np, behind, ctx())
 	}
 	if c.Kind != "offset" {
+		return nil
+	}
+	if c.Width > 255 {
+		// no expectation about the records: the resource bounds above are the oracle for this class
 		return nil
 	}
 	// offset: every record that is returned carries the number its step denotes; without an error
@@ -496,6 +508,11 @@ func eachTpl(emit func(tplCase)) {
 		emit(tplCase{Kind: "offset", Start: 5, Stop: 9, Step: 2, Off: math.MaxInt64 - 8, Base: "x", Owner: true})
 	}
 	emit(tplCase{Kind: "offset", Start: 0, Stop: 0, Step: 1, Off: math.MaxInt64, Base: "d"})
+	// widths above the 255 the library allows: seven characters must not buy a megabyte per step
+	for _, w := range []int{256, 300, 65535, 1000000} {
+		emit(tplCase{Kind: "offset", Start: 1, Stop: 3, Step: 1, Off: 0, Base: "d", Width: w})
+		emit(tplCase{Kind: "offset", Start: 1, Stop: 2, Step: 1, Off: 0, Base: "x", Width: w, Owner: true})
+	}
 	emit(tplCase{Kind: "offset", Start: 0, Stop: 3, Step: 1, Off: 1<<31 - 4, Base: "d", Width: 12})
 	emit(tplCase{Kind: "offset", Start: 0, Stop: 3, Step: 1, Off: 1<<31 - 3, Base: "d"})
 	emit(tplCase{Kind: "offset", Start: 4, Stop: 6, Step: 1, Off: -4, Base: "o", Width: 3, Owner: true})
